@@ -35,6 +35,18 @@ func (l *lease) renew() {
 	l.expiration = time.Now().Add(l.duration)
 }
 
+// renewFrom resets the expiration time of the lease to the provided time plus the
+// duration of the lease, unless the lease already lasts longer than that. The provided
+// time is the time at which the requests that a quorum has acknowledged were sent:
+// the followers only promise not to vote for another node for an election timeout
+// from the moment they received such a request, not from the moment the last
+// acknowledgement arrived, which may be up to two message delays later.
+func (l *lease) renewFrom(start time.Time) {
+	if expiration := start.Add(l.duration); expiration.After(l.expiration) {
+		l.expiration = expiration
+	}
+}
+
 // isValid returns true if the current time is less than
 // the expiration time of the lease and false otherwise.
 func (l *lease) isValid() bool {
